@@ -1192,7 +1192,8 @@ def _holds(dtype, values):
     from numpy import errstate
     with warnings.catch_warnings(), errstate(all='ignore'):
         warnings.simplefilter('ignore') # (a cast may drop the imaginary part)
-        return bool((values.astype(dtype) == values).all())
+        stored = values.astype(dtype) # (a nan that is stored as a nan is unchanged)
+        return bool(((stored == values) | ((stored != stored) & (values != values))).all())
 def bounded(seq, bounds, index=None, clip=True, nearest=True):
     """bound a sequence by bounds = [min,max]
 
@@ -1237,9 +1238,9 @@ def bounded(seq, bounds, index=None, clip=True, nearest=True):
         n = len(seq); index = [i % n for i in index if -n <= i < n]
         at = intersect1d(at, index)
     if not len(at): return seq
-    if seq.dtype.kind in 'iub': # (integers can't hold a fraction)
-        if not (clip and _holds(seq.dtype, bounds[isfinite(bounds)])):
-            seq = seq.astype(float)
+    # (integers can't hold a fraction, or short types a large bound)
+    if not (clip and _holds(seq.dtype, bounds[isfinite(bounds)])):
+        seq = seq.astype(float)
     if clip:
         if nearest: # clip at closest bounds
             seq_at = seq[at]
@@ -1737,6 +1738,7 @@ Examples:
             xtype = type(x)
             x = asarray(list(x)) #XXX: faster to use array(x, copy=True) ?
             _t = asarray(target)
+            if _t.dtype.kind == 'O': _t = _t.astype(float) # (None is nan)
             if not _holds(x.dtype, _t): # (integers can't hold a fraction)
                 x = x.astype(result_type(x, _t))
             n = len(x) # only use the indices (and their targets) that are in range
